@@ -774,7 +774,51 @@ func r13_4(c *Ctx, rule string) {
 }
 
 func r13_5(c *Ctx, rule string) {
-	c.R.Rule(rule, "copyXAttrs uses only LListxattr/LGetxattr/LSetxattr, copies each listed key from src to dst, and routes every error through the handler")
+	c.R.Rule(rule, "copyXAttrs uses only LListxattr/LGetxattr/LSetxattr, copies each listed key from src to dst, and routes every error through the handler; the handler is the caller's whenever the caller gave one (the strict default only replaces nil)")
+	if nc := c.P.Fn("copy.newCopier"); nc != nil {
+		for _, st := range fieldStoresIn(nc, "copy.copier.xattrErrorHandler") {
+			con := c.name(nc) + "/handler-default-only-for-nil"
+			phi, isPhi := eng.Canon(st.Val).(*ssa.Phi)
+			if !isPhi || len(phi.Edges) != 2 {
+				c.R.OK(rule, con, c.pos(st), "the handler stored is not a two-way choice (not interpreted)")
+				continue
+			}
+			dom := phi.Block().Idom()
+			var cb *ssa.BinOp
+			if dom != nil && len(dom.Instrs) > 0 {
+				if iff, isIf := dom.Instrs[len(dom.Instrs)-1].(*ssa.If); isIf {
+					cb, _ = iff.Cond.(*ssa.BinOp)
+				}
+			}
+			var prm *ssa.Parameter
+			if cb != nil && (cb.Op == token.EQL || cb.Op == token.NEQ) {
+				for i, o := range []ssa.Value{cb.X, cb.Y} {
+					if k, isK := []ssa.Value{cb.Y, cb.X}[i].(*ssa.Const); isK && k.IsNil() {
+						prm, _ = o.(*ssa.Parameter)
+					}
+				}
+			}
+			if prm == nil {
+				c.R.OK(rule, con, c.pos(st), "the choice is not made by a nil test of a parameter (not interpreted)")
+				continue
+			}
+			ok := true
+			for k, pr := range phi.Block().Preds {
+				var condTrue bool
+				switch {
+				case pr == dom:
+					condTrue = dom.Succs[0] == phi.Block()
+				default:
+					condTrue = dom.Succs[0] == pr || dom.Succs[0].Dominates(pr)
+				}
+				isNil := (cb.Op == token.EQL) == condTrue
+				if (phi.Edges[k] == ssa.Value(prm)) == isNil {
+					ok = false
+				}
+			}
+			c.R.Check(ok, rule, con, c.pos(st), "the caller's handler is kept whenever it is not nil", "newCopier replaces a handler the caller supplied by the strict default (and keeps nil): xattr errors the caller chose to tolerate abort the copy, and a nil handler is called")
+		}
+	}
 	fn := c.Fn(rule, "copy.copyXAttrs")
 	if fn == nil {
 		return
